@@ -491,6 +491,7 @@ BoolTyped(e) == e.k = "cmp" \/ (e.k = "un" /\ e.v[1] = "not")
 \* C-typed operands compares values
 RECURSIVE CTyped(_)
 CTyped(e) == \/ e.k = "num" \/ BoolTyped(e)
+             \/ e.k = "opq" /\ e.v[1] = "walrus"                    \* (W := 1) has the C type of the literal
              \/ e.k = "un" /\ CTyped(e.c[1])
              \/ e.k \in {"bin", "bool"} /\ CTyped(e.c[1]) /\ CTyped(e.c[2])
              \/ e.k = "cond" /\ CTyped(e.c[1]) /\ CTyped(e.c[3])
